@@ -117,7 +117,34 @@ WITNESSES = [
          old="if idx1 == idx2 and all(idx_counter[s] == 2 for s in idx1):", new="if idx1 == idx2 and all(idx_counter[s] == 1 for s in idx1):"),
     dict(id="c20-evaluate-term-targets", prop="C20", file=S, expect="R20c",
          old="func.evaluate_deltas(res.sympy, res.provided_target_idx)", new="func.evaluate_deltas(res.sympy, ())"),
+    # seeded change C20-3 on the repaired code (the seeded patch itself no longer applies): targets handed over as a
+    # string of index names, which drops the spin labels
+    dict(id="c20-seed-name-string-targets", prop="C20", file=S, expect="R20c",
+         edits=[("    res = e.Expr(0, **expr.assumptions)\n    for term in expr.terms:\n",
+                 "    res = e.Expr(0, **expr.assumptions)\n    target = set()\n    for term in expr.terms:\n        target.update(term.target)\n"),
+                ("func.evaluate_deltas(res.sympy, res.provided_target_idx)",
+                 "func.evaluate_deltas(res.sympy, \"\".join(sorted(s.name for s in target)))")]),
+    # seeded change C20-1 as it stands after the fix 85db5b6 (idx_counter no longer defined: NameError on every eligible pair)
+    dict(id="c20-seed-remainder-nameerror", prop="C20", file=S, expect="R20",
+         edits=[("        idx_counter = Counter(term.idx)\n",
+                 "        remainder_idx = {s for i, o in enumerate(obj)\n                         if i not in unitary_tensors for s in o.idx}\n"),
+                ("                    idx_counter[idx1[0]] == 2:", "                    idx1[0] not in remainder_idx:"),
+                ("                    idx_counter[idx1[1]] == 2:", "                    idx1[1] not in remainder_idx:")]),
     # ------------------------------------------------------------------ behaviour-preserving edits
+    # refactoring D5 (tuple unpacking of the index pairs, membership test in the remainder loop) on the repaired code
+    dict(id="c20-ok-d5-unpacking", prop="C20", file=S, expect=None,
+         edits=[("            idx1 = obj[i1].idx\n            idx2 = obj[i2].idx\n",
+                 "            first1, second1 = obj[i1].idx\n            first2, second2 = obj[i2].idx\n"),
+                (_IF1 + "\n                delta = KroneckerDelta(idx1[1], idx2[1])",
+                 "            if first1 == first2 and first1 not in target and \\\n                    idx_counter[first1] == 2:\n"
+                 "                delta = KroneckerDelta(second1, second2)"),
+                (_IF2 + "\n                delta = KroneckerDelta(idx1[0], idx2[0])",
+                 "            elif second1 == second2 and second1 not in target and \\\n                    idx_counter[second1] == 2:\n"
+                 "                delta = KroneckerDelta(first1, first2)"),
+                ("if idx1 == idx2 and all(idx_counter[s] == 2 for s in idx1):",
+                 "if (first1, second1) == (first2, second2) and \\\n                    all(idx_counter[s] == 2 for s in (first1, second1)):"),
+                ("                if i == i1 or i == i2:\n                    continue\n                else:\n                    new_term *= o\n",
+                 "                if i not in (i1, i2):\n                    new_term *= o\n")]),
     dict(id="c20-ok-square-guard-spelled", prop="C20", file=S, expect=None,
          old="if idx1 == idx2 and all(idx_counter[s] == 2 for s in idx1):",
          new="if i1 == i2 and idx_counter[idx1[0]] == 2 and idx_counter[idx1[1]] == 2:"),
